@@ -1,7 +1,103 @@
 package rules
 
-import "fqverif/fw"
+import (
+	"strings"
+
+	"golang.org/x/tools/go/ssa"
+
+	"fqverif/fw"
+)
 
 func c01Pad(r *fw.Run, p *fw.Program)    {}
 func c01Cursor(r *fw.Run, p *fw.Program) {}
 func c01Lanes(r *fw.Run, p *fw.Program)  {}
+
+// c01Clone: C01.clone — clones start at the logical start and keep the window.
+func c01Clone(r *fw.Run, p *fw.Program) {
+	ru := r.Rule("C01.clone", "CloneReaderAtSeeker of the computing readers builds a fresh reader over the same window/sub-readers whose cursor is reset to the logical start (Section: bitOff = bitBase; Multi: pos = 0), never a copy of the current cursor", 7)
+	type spec struct {
+		fn, typ string
+		recv    string
+		fields  map[string]string // field -> expected polynomial (over canonical receiver name)
+	}
+	for _, sp := range []spec{
+		{"(*pkg/bitio.SectionReader).CloneReaderAtSeeker", "pkg/bitio.SectionReader", "r",
+			map[string]string{"bitBase": "r.bitBase", "bitOff": "r.bitBase", "bitLimit": "r.bitLimit", "r": "r.r"}},
+		{"(*pkg/bitio.MultiReader).CloneReaderAtSeeker", "pkg/bitio.MultiReader", "m",
+			map[string]string{"pos": "0", "readers": "m.readers", "readerEnds": "m.readerEnds"}},
+	} {
+		fn := getFn(ru, p, sp.fn)
+		if fn == nil {
+			continue
+		}
+		if !fw.AliasParams(fn, sp.recv) {
+			ru.Undecided(sp.fn+":signature", p.Rel(fn.Pos()), "parameter list changed")
+			continue
+		}
+		env := fw.NewPolyEnv(fn)
+		// the returned value must be the address of a fresh composite literal of the reader type
+		var lit *ssa.Alloc
+		for _, ret := range returnsOf(fn) {
+			v := ret.Results[0]
+			if mi, ok := v.(*ssa.MakeInterface); ok {
+				v = mi.X
+			}
+			if a, ok := v.(*ssa.Alloc); ok && structTypeShort(a.Type()) == sp.typ {
+				lit = a
+			}
+		}
+		if lit == nil {
+			ru.Fail(sp.fn+":fresh", p.Rel(fn.Pos()), "clone is not a fresh "+sp.typ+" literal (a copy of the receiver carries the current cursor into the clone)")
+			continue
+		}
+		ru.Ok(sp.fn+":fresh", p.Rel(lit.Pos()), "fresh literal")
+		set := map[string]*fw.Poly{}
+		copied := false
+		if lit.Referrers() != nil {
+			for _, ref := range *lit.Referrers() {
+				switch x := ref.(type) {
+				case *ssa.FieldAddr:
+					if x.Referrers() == nil {
+						continue
+					}
+					for _, r2 := range *x.Referrers() {
+						if st, ok := r2.(*ssa.Store); ok && st.Addr == ssa.Value(x) {
+							set[fieldNameOf(x.X.Type(), x.Field)] = env.Of(st.Val)
+						}
+					}
+				case *ssa.Store:
+					if x.Addr == ssa.Value(lit) {
+						copied = true // whole-struct store (*lit = *r)
+					}
+				}
+			}
+		}
+		if copied {
+			ru.Fail(sp.fn+":copy", p.Rel(lit.Pos()), "clone is initialised by copying the whole receiver struct, cursor included")
+			continue
+		}
+		for f, want := range sp.fields {
+			got, ok := set[f]
+			w := fw.ParsePoly(want)
+			if !ok {
+				got = fw.PConst(0) // unset field = zero value
+			}
+			okF := got.Equal(w)
+			if !okF && strings.HasPrefix(got.String(), want) {
+				okF = true // load with store-version suffix
+			}
+			ru.Check(okF, sp.fn+":"+f, p.Rel(lit.Pos()), f+" = "+got.String(), "clone field "+f+" is "+got.String()+", expected "+w.String())
+		}
+	}
+	// constructor-based clones: the constructor zeroes the cursor
+	for _, x := range []struct{ fn, ctor string }{
+		{"(*pkg/bitio.IOBitReadSeeker).CloneReaderAtSeeker", "NewIOBitReadSeeker"},
+		{"(*internal/bitiox.ZeroReadAtSeeker).CloneReadAtSeeker", "NewZeroAtSeeker"},
+	} {
+		fn := getFn(ru, p, x.fn)
+		if fn == nil {
+			continue
+		}
+		ru.Check(len(methodCalls(fn, x.ctor)) == 1, x.fn+":ctor", p.Rel(fn.Pos()), "clone built by "+x.ctor, "clone is not built by "+x.ctor+" (which starts at position 0)")
+	}
+}
